@@ -211,6 +211,12 @@ func (c13) Gen(rng *rand.Rand, tier string, k int) *Case {
 	if rng.Intn(5) == 0 {
 		c.Delay = 2 // number of consecutive runs on the same Backtest/report (field reused)
 	}
+	if c.Impl == "html-reports" && len(c.Subs) >= 2 && rng.Intn(4) == 0 {
+		// fault-injecting configuration: one strategy report cannot be written (its path is taken by
+		// a directory), so HTMLReport.Write gives up part-way for that pair
+		c.Faults = append(c.Faults, FaultSpec{Kind: "report-file-blocked", At: rng.Intn(len(c.Assets)), N: rng.Intn(len(c.Subs))})
+		c.Delay = 0
+	}
 	c.Policy = genPolicy(rng)
 	return c
 }
@@ -299,6 +305,7 @@ func (c13) Run(c *Case, st *Stats) []Violation {
 		regime = "workers>1"
 	}
 	dir := ""
+	blocked := false
 	clientDone := false
 	var runErr error
 	var rec *RecordingReport
@@ -352,6 +359,23 @@ func (c13) Run(c *Case, st *Stats) []Violation {
 				h := backtest.NewHTMLReport(dir)
 				h.WriteStrategyReports = c.Impl == "html-reports"
 				report = h
+				for _, f := range c.Faults {
+					if f.Kind != "report-file-blocked" || f.At >= len(c.Assets) || f.N >= len(strategies) {
+						continue
+					}
+					free := 0
+					for _, sx := range strategies {
+						if sx.Name() != strategies[f.N].Name() {
+							free++
+						}
+					}
+					if free == 0 {
+						continue // every strategy of the asset would be blocked
+					}
+					if os.Mkdir(filepath.Join(dir, fmt.Sprintf("%s - %s.html", c.Assets[f.At].Name, strategies[f.N].Name())), 0o755) == nil {
+						blocked = true
+					}
+				}
 			}
 			bt := backtest.NewBacktest(fr, report)
 			bt.Workers = c.Workers
@@ -409,6 +433,13 @@ func (c13) Run(c *Case, st *Stats) []Violation {
 		return vs
 	}
 	if len(vs) > 0 {
+		return vs
+	}
+	if blocked {
+		// a pair's strategy report could not be written: the run must neither crash nor hang (above)
+		// nor race (race-detector companion); what the reports list for that asset is not specified
+		st.Faults["strategy-report-file-blocked"]++
+		st.Probes["runs-with-a-blocked-strategy-report"]++
 		return vs
 	}
 	if runErr != nil {
